@@ -80,9 +80,13 @@ func project(sp *spec.Spec, ut *spec.UserType, view string, val any, depth int) 
 			}
 		}
 		if _, nut := sp.Resolve(t); nut != nil && nut.Kind == "result" && t.Kind == spec.Ref {
+			// the view named for the attribute inside the enclosing View wins, then the view the attribute
+			// declares in Attributes, then "default"
 			nv := "default"
 			if nested != "-" {
 				nv = nested
+			} else if a.View != "" {
+				nv = a.View
 			}
 			if isMap {
 				mm, _ := vtree.IsMap(av)
@@ -306,7 +310,11 @@ func requiredObjectOutsideView(sp *spec.Spec, ut *spec.UserType, view string, de
 		in[va.Name] = va.View
 	}
 	for _, a := range ut.Def.Attrs {
-		rt, aut := sp.Resolve(a.Type)
+		at := a.Type
+		if (at.Kind == spec.Array || at.Kind == spec.Map) && at.Elem != nil && at.Elem.Type.Kind == spec.Ref {
+			at = at.Elem.Type // elements of a collection of result types are converted one by one
+		}
+		rt, aut := sp.Resolve(at)
 		nv, isIn := in[a.Name]
 		if !isIn {
 			// the generated client converts required (and defaulted) attributes without a nil check
@@ -319,6 +327,9 @@ func requiredObjectOutsideView(sp *spec.Spec, ut *spec.UserType, view string, de
 		if aut != nil && aut.Kind == "result" {
 			if nv == "" {
 				nv = "default"
+				if a.View != "" {
+					nv = a.View
+				}
 			}
 			if requiredObjectOutsideView(sp, aut, nv, depth+1) {
 				return true
